@@ -1,6 +1,6 @@
 """C18 - ADC is a true n-bit quantiser; shortest_int returns a shortest covering interval.
 Spec: Quantiser.tla, QuantiserModel.tla, QuantiserTrace.tla."""
-import itertools, random
+import itertools, random, warnings
 import numpy as np
 from ..core import deadline, import_repo, protect
 
@@ -138,6 +138,41 @@ def run(ctx):
             adc_event([int(v) for v in x], bits, ot, rnd.choice([1.0, 2.0 ** -20, 2.0 ** 10]), rnd.randrange(3))
         meta.append(("adc-long", n, bits, ot))
         ctx.case(("adc-long", dist, n >= 10001, bits, ot, outl))
+    # ---- data that are not dyadic (0.65, -0.3, 1e25 ...): exact integer replay is impossible, the statement's countable clauses are
+    #      observed by the harness (membership, counts) and judged by TLC
+    for k in range(120 if T else 30):
+        rs = np.random.RandomState(900 + k)
+        n = [12, 101, 1000, 20001, 50001][k % 5]
+        x = np.round(rs.randn(n) * [0.37, 1.3, 250.0][k % 3], 2) + [0.65, -0.3, 0.1][(k // 3) % 3]        # decimal data: sums and differences round
+        p_ = [50.0, 99.99, 10.0, 33.3, 0.7][k % 5]
+        with deadline(60):
+            lo, hi = [float(v) for v in np.asarray(shortest_int(protect(x.copy()), p_)).ravel()[:2]]
+        lag = int(n * p_ / 100)
+        events.append({"kind": "sistat", "lo_in": bool(np.any(x == lo)), "hi_in": bool(np.any(x == hi)), "covered": int(np.sum((x >= lo) & (x <= hi))), "lag": lag, "ordered": bool(lo <= hi)})
+        meta.append(("sistat", n, p_))
+        ctx.case(("si-decimal", n, p_))
+        if n >= 1000:
+            bits_, ot = [1, 2, 3, 8][k % 4], ["v", "n"][(k // 2) % 2]
+            xg = x.copy()
+            glitch = [1e25, 1e12, 1e9, 40.0 * max(1.0, float(np.abs(x).max()))][k % 4]
+            perm_ = rs.permutation(n)
+            idx_hi, idx_lo = perm_[:3], perm_[3:6]
+            xg[idx_hi] = glitch
+            xg[idx_lo] = -glitch if k % 2 else float(x.min() - 35.0 * max(1.0, np.abs(x).max()))       # far below everything else
+            with warnings.catch_warnings():
+                warnings.simplefilter("ignore")
+                with deadline(120):
+                    out = np.asarray(ADC(protect(xg.copy()) if k % 3 else protect(electrical_signal(xg.copy())), n=bits_, otype=ot).signal, dtype=float)
+                    vlo, vhi = [float(v) for v in np.asarray(shortest_int(xg, 99.99)).ravel()[:2]]
+            top = (2 ** bits_ - 1) if ot == "n" else vhi
+            bot = 0.0 if ot == "n" else vlo
+            tol_ = 0.0 if ot == "n" else 1e-9 * (vhi - vlo)          # volts are reconstructed as code*step + V_min: equal to the rails up to rounding
+            fin_ = bool(np.all(np.isfinite(out)))
+            events.append({"kind": "adcstat", "n": bits_, "distinct": int(len(np.unique(out))), "len_ok": bool(out.shape == xg.shape), "finite": fin_,
+                           "inside": bool(np.all(out >= bot - tol_) and np.all(out <= top + tol_)) if fin_ else False,
+                           "sat_ok": bool(fin_ and np.all(out[idx_hi] == out.max()) and np.all(out[idx_lo] == out.min()) and abs(out.max() - top) <= tol_ and abs(out.min() - bot) <= tol_)})
+            meta.append(("adcstat", n, bits_, ot))
+            ctx.case(("adc-decimal", n, bits_, ot, k % 4))
     B = 400
     for i in range(0, len(events), B):
         for idx, clause in ctx.validate("QuantiserTrace", events[i:i + B], note="shortest_int / ADC events", timeout=3000):
